@@ -16,14 +16,16 @@ CLAIMS = {
          "and parameter registries agree between code, result object and docs; unknown key ends in ValueError; explicit raises reachable "
          "from solve are documented/opt-in; exit_info is never None where it is dereferenced; no local can be read before assignment (exceptions frozen with reasons, their "
          "premises such as a parameter lower bound re-checked); every parameter update made by the package itself is guarded so that it cannot be a second update of a key the user set (truth-table entailment for flags); each type validator "
-         "accepts only when isinstance(value, type) holds for the value it was given; the restart geometry loop cannot index past its list. Not a claim about implicit NumPy/SciPy exceptions.",
+         "accepts only when isinstance(value, type) holds for the value it was given; the restart geometry loop cannot index past its list; the asserted precondition of the coordinate "
+         "initialiser is established by solve for the npt of every run (validation guard + data-flow over later assignments). Not a claim about implicit NumPy/SciPy exceptions.",
          "Trusted: CPython ast, purpose-built receiver resolution (0 unresolved calls, reported in evidence), frozen table of documented invalid-argument classes in dfv/tables.py.",
          "DESIGN.md 4/C07"),
  "C20": ("AST table agreement (to_dict / from_dict / __init__ / __str__), nullable-flow of None->NaN per field, belief-based (contradiction) guard analysis on __str__'s CFG, "
          "value-flow query that no raw return value of objfun/h/prox_uh/nsamples reaches a result field by plain copies",
          "Static decision of the structural clauses of the JSON round trip: keys written = keys read = constructor fields, each routed to the "
          "field of the same name; only plain data leave to_dict and NaN replacement covers the whole dict; None is mapped back to NaN for every "
-         "float-valued field; __str__ never applies a numeric conversion or len() to a possibly-None field; diagnostic columns hold scalars. "
+         "float-valued field; __str__ never applies a numeric conversion or len() to a possibly-None field; diagnostic columns hold scalars and table rows are uniquely labelled; NaN replacement visits every "
+         "element of nested containers; integer Model arrays keep an integer dtype at every re-binding (dtype inference through helpers). "
          "pandas/json library semantics are not decided.",
          "Trusted: CPython ast; np.array(list, dtype=float) maps None to NaN; json emits what to_dict's plain types contain.",
          "DESIGN.md 4/C20"),
@@ -66,7 +68,7 @@ CLAIMS = {
          "overwritten messages; counting data-flow for nruns over all breaks/continues/returns of solve_main",
          "Static decision, at every construction site of an exit message that states a fact, that the fact is a control dependence (or path-entailed) of the "
          "construction (values accumulated in locals are expanded through their reaching definitions), that rho can never be below rhoend (interval reasoning shared with C18-8, so "
-         "'rho has reached rhoend' is built exactly at rho == rhoend), and that the run counter is incremented exactly once per run end on every path and threaded through solve.",
+         "'rho has reached rhoend' is built exactly at rho == rhoend), that on every path to the one result constructor a success flag implies a tested-finite objective (typestate), and that the run counter is incremented exactly once per run end on every path and threaded through solve.",
          "Trusted: CPython ast; CFG; normalisation of comparisons over a total order (counters are integers).",
          "DESIGN.md 4/C10"),
  "C01": ("abstract interpretation over a coordinate-frame domain {U,A,R,?} with exactness facts (context-sensitive, one run per configuration of scaling/projections/"
@@ -110,7 +112,7 @@ CLAIMS = {
  "C13": ("definition/mutation inventory of the projector list in each ctrsbox_* routine, dominator queries in Controller.trust_region_step, frame interpretation of the step routines (model_value callback frame included), loop-form lint, reflection equivariance of trsbox_linear's bound handling",
          "Static decision that the trust-region ball pball(., centre, radius) of the routine's own centre/radius is the last set handed to Dykstra over a fresh copy of the caller's "
          "list; that every regularised step passes `pred_reduction < 0 => d = 0` with pred_reduction computed from the returned (gopt, H, d); frame agreement at all arithmetic/clamp/"
-         "dykstra sites of the step routines; totality. Box to 1e-12, global optimality to 1e-6 and ||d|| <= Delta(1+1e-8) are numerical and NOT decided.",
+         "dykstra sites of the step routines; the geometry point is centre + an output of the box solver over the box relative to the centre; totality. Box to 1e-12, global optimality to 1e-6 and ||d|| <= Delta(1+1e-8) are numerical and NOT decided.",
          "Trusted: dykstra summary (C15-2); CPython ast.",
          "DESIGN.md 4/C13"),
  "C14": ("symbolic comparison of allocation/return shapes and a must-pass-through/last-write check of the clamp loop in both random-direction generators, "
@@ -123,14 +125,16 @@ CLAIMS = {
  "C15": ("counting data-flow for the sweep counter, reaching definitions of the returned variable, placement/shape check of the stopping accumulator, symbolic execution of one "
          "inner iteration over affine normal forms",
          "Static decision that dykstra performs at most max_iter sweeps, that its result is exactly the last projector's output, and of the two premises of the sqrt(p*tol) feasibility "
-         "bound (the stopping quantity sums the squared change of every correction vector of the sweep; each sub-step moves x by exactly the change of its correction vector). "
+         "bound (the stopping quantity sums the squared change of every correction vector of the sweep; each sub-step moves x by exactly the change of its correction vector; the loop "
+         "tests the caller's tol / max_iter, which are never re-assigned), and that pbox is an exact two-sided clamp of its arguments. "
          "Distances and 1e-3 optimality are numerical and NOT decided.",
          "Trusted: CPython ast; integer-coefficient affine arithmetic of dfv/affine.py.",
          "DESIGN.md 4/C15"),
  "C16": ("typestate data-flow (flag may-be-true / cleared / written-while-true) over every Model method with the read-set of interpolation_matrix computed from the call graph, "
          "ownership inventory, affine normal forms for shift_base, re-basing check of live relative locals at shift_base call sites",
          "Static decision that every mutation of what the cached factorisation depends on clears factorisation_current on every path, that only factorise_geom_system validates the cache "
-         "after recomputing Q, R, that no Model field is written outside the class, and that shift_base is an affine no-op for model values and the assembled model. "
+         "after recomputing Q, R, that no Model field is written outside the class, that no stored array is modified in place through a local it is a view of, and that shift_base is an "
+         "affine no-op for model values and the assembled model. "
          "Interpolation / least-squares / Lagrange identities are numerical and NOT decided.",
          "Trusted: CPython ast; CFG; np.dot(J, .) is linear.",
          "DESIGN.md 4/C16"),
@@ -154,7 +158,7 @@ CLAIMS = {
  "C19": ("guarded taint over the call graph (global-RNG uses vs documented random options, dominance-based guards; documented random options proved off by default from the parameter table), nondeterminism/hidden-state inventory, flow-sensitive ownership "
          "lattice {caller, fresh} over solve with alias summaries of callees",
          "Static decision that every numpy.random use reachable from solve is guarded on every call path by an option documented as random (one checked exception), that no other "
-         "nondeterminism or hidden state exists, and that caller-owned mutable arguments are copied before any in-place operation and never handed on un-copied. The statement is "
+         "nondeterminism or hidden state exists (globals, process-dependent calls, set iteration, mutated default arguments, mutable objects in class bodies), and that caller-owned mutable arguments are copied before any in-place operation and never handed on un-copied. The statement is "
          "structural apart from the determinism of NumPy/SciPy kernels, which is trusted.",
          "Trusted: copy/view semantics of astype/asarray/slicing/list(); frozen table of documented random options in dfv/tables.py.",
          "DESIGN.md 4/C19"),
